@@ -22,6 +22,13 @@
 #include <limits>
 #include <type_traits>
 
+#ifdef CNTGS_VERIF_HOOKS
+namespace cntgs_verif
+{
+struct Access;
+}
+#endif
+
 namespace cntgs::detail
 {
 template <bool UseMove, class Type, class Source, class Target>
@@ -51,6 +58,9 @@ template <std::size_t... I, class... Parameter>
 class ElementTraits<std::index_sequence<I...>, Parameter...>
 {
   private:
+#ifdef CNTGS_VERIF_HOOKS
+    friend struct ::cntgs_verif::Access;
+#endif
     using ListTraits = detail::ParameterListTraits<Parameter...>;
 
   public:
